@@ -26,8 +26,11 @@ ReplyMatches(m, r, isPut) ==
           /\ Len(r.list.items) = Cardinality(m.list)
           /\ \A i \in DOMAIN r.list.items : \E x \in m.list : InfoMatches(x, r.list.items[i])
 
+\* the version in a record is the one the caller gave (C06: "and version where one was given"); where none was given (get,
+\* conditional get) the pinned code records 0, recording the version that was disclosed is just as good
 EntryMatches(m, r) ==
-  /\ m.who = r.who /\ m.action = r.action /\ m.name = r.name /\ m.ver = r.ver /\ m.authorized = r.authorized
+  /\ m.who = r.who /\ m.action = r.action /\ m.name = r.name /\ m.authorized = r.authorized
+  /\ (m.ver = r.ver \/ (m.action = "get" /\ m.ver = 0 /\ m.authorized))
 
 AuditMatches(m, r) ==      \* both sequences of entries
   /\ Len(m) = Len(r)
